@@ -211,6 +211,18 @@ func (r *Run) opMpuComplete(op *Op) {
 		unchanged(why)
 		return
 	}
+	if sure, maybe := r.fsKeyConflict(bucket, key); (sure || maybe) && !r.me().faulted {
+		// the backend cannot store the key next to the ones it holds: the
+		// complete is refused and, like any refused complete, changes nothing
+		if !resp.OK() && resp.Status < 500 {
+			r.probe("complete refused by the backend: key in a path relation with a stored key (fs)")
+			unchanged("the backend cannot store the key")
+			return
+		}
+		if sure {
+			r.fail("mpu.reject", "a complete whose key conflicts with a stored key on a file-system backend is not refused with a client error "+r.bctx(), "4xx", resp.String())
+		}
+	}
 	if r.faultedOut(resp, bucket, key) {
 		if !resp.OK() {
 			// the object is indeterminate after a disk fault, but a complete
